@@ -14,7 +14,9 @@ pub mod mjets;
 pub mod eval;
 pub mod gen;
 pub mod prog;
+pub mod enc;
 
+pub mod c01;
 pub mod c04;
 pub mod c05;
 pub mod c09;
